@@ -53,14 +53,14 @@ def typeAllowed (a : Abstract) (opts : List NOpt) (t : Nat) : Bool :=
 def covers (d host : Str) : Bool := host == d || ('.' :: d).isSuffixOf host
 
 /-- the last non-empty list of each polarity wins when the option is repeated -/
-def includedDomains (opts : List NOpt) : Option (List Str) :=
-  opts.foldl (fun acc o => match o with
-    | .domain ds => let inc := (ds.filter (·.1)).map (·.2); if inc.isEmpty then acc else some inc
-    | _ => acc) none
-def excludedDomains (opts : List NOpt) : Option (List Str) :=
-  opts.foldl (fun acc o => match o with
-    | .domain ds => let exc := (ds.filter (fun p => !p.1)).map (·.2); if exc.isEmpty then acc else some exc
-    | _ => acc) none
+def incStep (acc : Option (List Str)) : NOpt → Option (List Str)
+  | .domain ds => let inc := (ds.filter (·.1)).map (·.2); if inc.isEmpty then acc else some inc
+  | _ => acc
+def excStep (acc : Option (List Str)) : NOpt → Option (List Str)
+  | .domain ds => let exc := (ds.filter (fun p => !p.1)).map (·.2); if exc.isEmpty then acc else some exc
+  | _ => acc
+def includedDomains (opts : List NOpt) : Option (List Str) := opts.foldl incStep none
+def excludedDomains (opts : List NOpt) : Option (List Str) := opts.foldl excStep none
 
 /-- scheme restriction carried by a scheme-only pattern (`|http://`, `|https://`, `|ws://`, `|http*://`) -/
 def schemeOk (a : Abstract) (q : OReq) : Bool :=
